@@ -21,7 +21,7 @@ const (
 	clSlash             // local run directly preceded by '/'                               -> must stay
 	clUndotted          // one label, followed by a non-address byte (not end of text)      -> must stay
 	clBadDot            // first label + '.', then something that cannot start a label       -> must stay
-	clNumeric           // dotted, every label digits only                                  -> must stay
+	clNumeric           // every label digits only (dotted, or one label up to the end of text)  -> must stay
 	clFree              // supported shape but "numeric-ish" by the code's approximation    -> no demand
 	clDotted            // supported: >= 2 labels                                           -> must go
 	clTruncLabel        // supported: single label cut by end of text                       -> must go
@@ -99,6 +99,10 @@ func classifyAt(t string, p int) atInfo {
 		d := t[p+1 : ge]
 		switch {
 		case shape == clDotted && ge == q && onlyDigitsDots(d):
+			inf.class = clNumeric
+		case shape == clTruncLabel && ge == q && onlyDigitsDots(d):
+			// a single all-digit label up to the end of the text ("Trx@1593788313696"): purely numeric, so not an address -
+			// truncation by the end of the text does not make it one
 			inf.class = clNumeric
 		case isDigit(d[0]) && isDigit(lastWord(d)):
 			inf.class = clFree
